@@ -258,6 +258,9 @@ def doLine (d : D) (ws : List String) : D × String :=
       | _, _, _ => (d, "bad"))
   | "pubn" :: vals =>
       globalOp d (Op.push (vals.filterMap String.toNat?)) (fun s => s!"pubn q={s.q.length}")
+  | "pubi" :: vals =>
+      -- the batch publish fed from a single-pass input iterator: the same step
+      globalOp d (Op.push (vals.filterMap String.toNat?)) (fun s => s!"pubi q={s.q.length}")
   | ["pub", v] =>
       (match v.toNat? with
       | some v => globalOp d (Op.push [v]) (fun s => s!"pub q={s.q.length}")
